@@ -1,10 +1,16 @@
 (* Model of the plane-type state machine of lentil (lentil/ptype.py, Plane.multiply and its
-   overrides in lentil/plane.py, _propagate_ptype in lentil/propagate.py).
+   overrides in lentil/plane.py, _propagate_ptype / _has_tilt in lentil/propagate.py).
 
    Only the vocabulary and the program semantics are written by hand.  The transition functions
    themselves are NOT: [Gen/PTypeObserved.v] is regenerated on every check by observing the real
    classes exhaustively, [Gen/DocTable.v] by parsing the tables of the user documentation.
-   Definitions only, no proofs. *)
+   Definitions only, no proofs.
+
+   State.  The documentation speaks about the plane type of a wavefront only.  The code has one
+   more bit that decides whether a step is refused: propagate_fft raises NotImplementedError
+   *before* looking at the type when any field of the wavefront carries fitted tilt
+   (propagate.py:_has_tilt).  A model over the type alone would therefore not be a function; the
+   state of the model is the pair (type, tilted). *)
 From LV Require Export Lib.Base.
 
 (* type of a Wavefront: lentil.none / lentil.pupil / lentil.image (Wavefront.ptype setter accepts
@@ -15,14 +21,24 @@ Inductive ptype := PNone | PPupil | PImage | PTilt | PTransform.
 (* exception classes a step was observed to raise; a class the generator has no name for is EOther *)
 Inductive exc := EValueError | ETypeError | EIndexError | ENotImplementedError | EAssertionError
                | EAttributeError | EKeyError | EOther.
-(* what one step does: it returns a new wavefront of type [t], or it raises [e] and the operand
-   wavefront (which the program keeps using) is left with type [kept] *)
-Inductive outcome := Yields (t : wtype) | Raises (e : exc) (kept : wtype).
 (* far-field propagation routine *)
 Inductive method := Dft | Fft.
 
+(* what the state machine knows about a wavefront: its ptype, and whether any of its fields
+   carries tilt objects (any(field.tilt for field in w.data)) *)
+Record wstate := St { ty : wtype; tilted : bool }.
+
+(* what one step does: it returns a new wavefront in state [s], or it raises [e] and the operand
+   wavefront (which the program keeps using) is left in state [kept] *)
+Inductive outcome := Yields (s : wstate) | Raises (e : exc) (kept : wstate).
+
 Definition wtype_eqb (a b : wtype) : bool :=
   match a, b with WNone, WNone | WPupil, WPupil | WImage, WImage => true | _, _ => false end.
+Definition ptype_eqb (a b : ptype) : bool :=
+  match a, b with
+  | PNone, PNone | PPupil, PPupil | PImage, PImage | PTilt, PTilt | PTransform, PTransform => true
+  | _, _ => false
+  end.
 
 (* integer codes of the case protocol (mirrored in harness/props/c08.py) *)
 Definition wcode (w : wtype) : Z := match w with WNone => 0 | WPupil => 1 | WImage => 2 end.
@@ -40,6 +56,9 @@ Definition exc_code (e : exc) : Z :=
 Definition mcode (m : method) : Z := match m with Dft => 0 | Fft => 1 end.
 Definition method_of_code (z : Z) : option method :=
   match z with 0 => Some Dft | 1 => Some Fft | _ => None end.
+Definition bcode (b : bool) : Z := if b then 1 else 0.
+Definition bool_of_code (z : Z) : option bool :=
+  match z with 0 => Some false | 1 => Some true | _ => None end.
 
 (* a Wavefront type seen as the Plane type of the same name *)
 Definition ptype_of_wtype (w : wtype) : ptype :=
@@ -53,51 +72,69 @@ Section Machine.
      w = propagate_dft(w, ...) / propagate_fft(w, ...) *)
   Inductive op := MulType (p : ptype) | MulClass (c : C) | Propagate (m : method).
 
-  (* a transition system: what each kind of step does to a wavefront of a given type *)
+  (* a transition system: what each kind of step does to a wavefront in a given state *)
   Record machine := {
-    m_mul : wtype -> ptype -> outcome;      (* Plane(ptype=p).multiply(w) *)
-    m_class : C -> wtype -> outcome;        (* c(...).multiply(w) *)
-    m_prop : method -> wtype -> outcome     (* propagate_<m>(w, ...) *)
+    m_mul : wstate -> ptype -> outcome;      (* Plane(ptype=p).multiply(w) *)
+    m_class : C -> wstate -> outcome;        (* c(...).multiply(w) *)
+    m_prop : method -> wstate -> outcome     (* propagate_<m>(w, ...) *)
   }.
 
-  Definition step (M : machine) (w : wtype) (o : op) : outcome :=
+  Definition step (M : machine) (s : wstate) (o : op) : outcome :=
     match o with
-    | MulType p => m_mul M w p
-    | MulClass c => m_class M c w
-    | Propagate m => m_prop M m w
+    | MulType p => m_mul M s p
+    | MulClass c => m_class M c s
+    | Propagate m => m_prop M m s
     end.
 
-  (* the type of the wavefront the program goes on with:
-       try: w = <step>(w)  except Exception: pass *)
-  Definition next (o : outcome) : wtype :=
-    match o with Yields t => t | Raises _ kept => kept end.
+  (* the state of the wavefront the program goes on with:
+       try: w = <step>(w)  except Exception: pass
+     a refused step leaves the program with its operand *)
+  Definition next (o : outcome) : wstate :=
+    match o with Yields s => s | Raises _ kept => kept end.
 
-  (* trace of outcomes of a program started on a wavefront of type [w] *)
-  Fixpoint run_program (M : machine) (w : wtype) (ops : list op) : list outcome :=
+  (* trace of outcomes of a program started on a wavefront in state [s] *)
+  Fixpoint run_program (M : machine) (s : wstate) (ops : list op) : list outcome :=
     match ops with
     | [] => []
-    | o :: rest => let x := step M w o in x :: run_program M (next x) rest
+    | o :: rest => let x := step M s o in x :: run_program M (next x) rest
     end.
 
-  (* type of the wavefront after the whole program *)
-  Fixpoint final_type (M : machine) (w : wtype) (ops : list op) : wtype :=
+  (* state of the wavefront after the whole program *)
+  Fixpoint final_state (M : machine) (s : wstate) (ops : list op) : wstate :=
     match ops with
-    | [] => w
-    | o :: rest => final_type M (next (step M w o)) rest
+    | [] => s
+    | o :: rest => final_state M (next (step M s o)) rest
     end.
 
-  (* The machine the documentation describes.  [dmul w p] is the cell of the "Multiplication
-     rules" table (None = "Not allowed"), [dprop w] the far-field row of the propagation table
-     (None = not supported), [cls_ptype c] the ptype attribute an instance of class c carries.
-     A refused operation raises TypeError and leaves the operand as it was. *)
-  Definition doc_outcome (w : wtype) (d : option wtype) : outcome :=
-    match d with Some t => Yields t | None => Raises ETypeError w end.
+  (* ---- The machine the documentation describes ---------------------------------------------
+     [dmul w p]   cell of the "Multiplication rules" table of wavefront.rst (None = "Not allowed")
+     [dprop m w]  far-field rows of the propagation table of diffraction.rst for routine m
+                  (None = not supported)
+     [cls_ptype c] the ptype an instance of class c carries (planes.rst)
+     A refused operation raises TypeError and leaves the operand as it was.
 
-  Definition doc_machine (dmul : wtype -> ptype -> option wtype) (dprop : wtype -> option wtype)
-             (cls_ptype : C -> ptype) : machine :=
-    {| m_mul := fun w p => doc_outcome w (dmul w p);
-       m_class := fun c w => doc_outcome w (dmul w (cls_ptype c));
-       m_prop := fun _ w => doc_outcome w (dprop w) |}.
+     The tables say nothing about fitted tilt.  Two facts about it are implementation-defined
+     parameters of the documented machine (they are read off the code by the generator, and the
+     direct oracle of the harness accepts either value):
+     [cls_tilts c]       multiplying by class c attaches a tilt object to the fields
+     [fft_refuses_tilt]  propagate_fft refuses (NotImplementedError, operand kept) a wavefront
+                         that carries tilt, whatever its type
+     What the documented machine fixes about the bit: a plain Plane(ptype=p) keeps it, a class
+     sets it when [cls_tilts], a successful propagation returns fields without tilt. *)
+  Definition doc_type_outcome (s : wstate) (d : option wtype) (tl : bool) : outcome :=
+    match d with Some t => Yields (St t tl) | None => Raises ETypeError s end.
+
+  Definition doc_machine (dmul : wtype -> ptype -> option wtype)
+             (dprop : method -> wtype -> option wtype)
+             (cls_ptype : C -> ptype) (cls_tilts : C -> bool) (fft_refuses_tilt : bool) : machine :=
+    {| m_mul := fun s p => doc_type_outcome s (dmul (ty s) p) (tilted s);
+       m_class := fun c s => doc_type_outcome s (dmul (ty s) (cls_ptype c)) (tilted s || cls_tilts c);
+       m_prop := fun m s =>
+         match m with
+         | Fft => if tilted s && fft_refuses_tilt then Raises ENotImplementedError s
+                  else doc_type_outcome s (dprop m (ty s)) false
+         | Dft => doc_type_outcome s (dprop m (ty s)) false
+         end |}.
 End Machine.
 
 Arguments MulType {C} p.
@@ -106,7 +143,15 @@ Arguments Propagate {C} m.
 Arguments m_mul {C} m _ _.
 Arguments m_class {C} m _ _.
 Arguments m_prop {C} m _ _.
-Arguments step {C} M w o.
-Arguments run_program {C} M w ops.
-Arguments final_type {C} M w ops.
-Arguments doc_machine {C} dmul dprop cls_ptype.
+Arguments step {C} M s o.
+Arguments run_program {C} M s ops.
+Arguments final_state {C} M s ops.
+Arguments doc_machine {C} dmul dprop cls_ptype cls_tilts fft_refuses_tilt.
+
+(* ---- encoding of traces for the case protocol ---- *)
+Definition estate (s : wstate) : list Z := [wcode (ty s); bcode (tilted s)].
+Definition eoutcome (x : outcome) : list Z :=
+  match x with
+  | Yields s => 0 :: estate s
+  | Raises e k => 1 :: exc_code e :: estate k
+  end.
